@@ -568,17 +568,21 @@ class ProductState:
                 for i in range(len(self.state_objs))
                 for item in [i, i + len(self.state_objs)]
             ]
+            # Inverse permutation, brings (row, column) pairs back to rows then columns
+            inverse_pattern = [
+                transpose_pattern.index(i) for i in range(len(transpose_pattern))
+            ]
             ps = self.state.reshape([*shape, *shape]).transpose(transpose_pattern)
             if new_dimensions > fock.dimensions:
                 assert isinstance(fock.index, tuple)
                 padding = new_dimensions - fock.dimensions
                 pad_config = [(0, 0) for _ in range(ps.ndim)]
-                pad_config[fock.index[1] * len(self.state_objs)] = (0, padding)
-                pad_config[fock.index[1] * len(self.state_objs) + 1] = (0, padding)
+                pad_config[fock.index[1] * 2] = (0, padding)
+                pad_config[fock.index[1] * 2 + 1] = (0, padding)
                 ps = jnp.pad(ps, pad_config, mode="constant", constant_values=0)
                 fock.dimensions = new_dimensions
                 dims = jnp.prod(jnp.array([s.dimensions for s in self.state_objs]))
-                ps = ps.transpose(transpose_pattern)
+                ps = ps.transpose(inverse_pattern)
                 self.state = ps.reshape((dims, dims))
                 return True
             if new_dimensions < fock.dimensions:
@@ -589,13 +593,11 @@ class ProductState:
                 if num_quanta >= new_dimensions:
                     return False
                 slices = [slice(None)] * ps.ndim
-                slices[fock.index[1] * len(self.state_objs)] = slice(0, new_dimensions)
-                slices[fock.index[1] * len(self.state_objs) + 1] = slice(
-                    0, new_dimensions
-                )
+                slices[fock.index[1] * 2] = slice(0, new_dimensions)
+                slices[fock.index[1] * 2 + 1] = slice(0, new_dimensions)
                 ps = ps[tuple(slices)]
                 fock.dimensions = new_dimensions
-                ps = ps.transpose(transpose_pattern)
+                ps = ps.transpose(inverse_pattern)
                 dims = jnp.prod(jnp.array([s.dimensions for s in self.state_objs]))
                 self.state = jnp.array(ps.reshape((dims, dims)))
                 return True
